@@ -173,3 +173,89 @@ Qed.
 (* C10: a rejected resume in state-passing form *)
 Example ex_resume_m_rejected : exists x', resume_m ex_assets ex_waiting RDial [] = (x', OErr 103).
 Proof. vm_compute. eexists; reflexivity. Qed.
+
+(* ---- C05: the step limit (review F1, F7) ---------------------------------------------------------------------- *)
+From Verif Require Import proofs.EngineSteps proofs.EngineLimit.
+
+(* a node that sends a message and loops on itself *)
+Definition ex_loop_flow : flow :=
+  {| f_id := 1; f_type := 0;
+     f_nodes := [ {| n_id := 101; n_actions := [ASendMsg [104; 105]]; n_router := None;
+                     n_exits := [{| e_id := 1011; e_dest := Some 101 |}] |} ] |}.
+Definition ex_loop_assets (limit : Z) : assets :=
+  {| a_flows := [ex_loop_flow];
+     a_opts := {| max_steps := limit; max_resumes := 500; max_template_chars := 10000; max_result_chars := 640 |} |}.
+
+(* limit 3: three steps, three messages, then the step-limit failure event; the session is failed *)
+Example ex_limit_3 : exists x', start (ex_loop_assets 3) TManual 1 = ROk x' /\
+  s_status (session_ x') = SFailed /\ tot (session_ x') = 3%nat /\
+  map (fun oe => is_limit (ev_kind (snd oe))) (sp_events (sprint_ x')) = [false; false; false; true].
+Proof. vm_compute. eexists; repeat split. Qed.
+
+(* limits 0 and -4: no step at all, one failure event, failed *)
+Example ex_limit_0 : exists x', start (ex_loop_assets 0) TManual 1 = ROk x' /\
+  s_status (session_ x') = SFailed /\ tot (session_ x') = 0%nat /\ has_limit_event (sp_events (sprint_ x')) = true.
+Proof. vm_compute. eexists; repeat split. Qed.
+Example ex_limit_negative : exists x', start (ex_loop_assets (-4)) TManual 1 = ROk x' /\
+  s_status (session_ x') = SFailed /\ tot (session_ x') = 0%nat /\ has_limit_event (sp_events (sprint_ x')) = true.
+Proof. vm_compute. eexists; repeat split. Qed.
+
+(* the hypotheses of c05_limit_ends_failed / c05_crossed_ends_failed / c05_limit_crossing are inhabited: the first
+   iteration of a start with limit 0 crosses the limit *)
+Definition ex_x0_loop : st :=
+  {| session_ := set_pushed (set_type (new_session TManual 1) 0) (Some {| p_flow := 1; p_terminal := false |});
+     sprint_ := empty_sprint |}.
+
+Example ex_hit_state : exists x l,
+  cuw_iter (ex_loop_assets 0) ex_x0_loop (init_lstate true) = ICont x l /\
+  ~ hit (ex_loop_assets 0) (init_lstate true) /\ hit (ex_loop_assets 0) l /\
+  step_inv (ex_loop_assets 0) 0 x l /\ has_limit_event (sp_events (sprint_ x)) = true.
+Proof.
+  pose proof (step_inv_init (ex_loop_assets 0) ex_x0_loop (init_lstate true) (loop_inv_start TManual 1 0) eq_refl) as S.
+  pose proof (cuw_iter_steps (ex_loop_assets 0) _ _ _ S) as K.
+  destruct (cuw_iter (ex_loop_assets 0) ex_x0_loop (init_lstate true)) as [r|x l] eqn:E; [vm_compute in E; discriminate|].
+  exists x, l. split; [reflexivity|]. split; [intros [C _]; simpl in C; lia|].
+  vm_compute in E. inversion E; subst. split; [split; reflexivity|]. split; [exact K|reflexivity].
+Qed.
+
+(* C05: a resume answered by the resume-limit failure (constructor h_limit of [history]) *)
+Example ex_history_limit : exists x,
+  resume_session ex_assets_no_resumes ex_waiting (RMsg [97]) [] = Resumed (ROk x) /\
+  resume_limit_reached ex_assets_no_resumes ex_waiting /\ s_status (session_ x) = SFailed.
+Proof. vm_compute. eexists; repeat split; discriminate. Qed.
+
+(* ---- C10 (review F5): a node that lost its router, and a wait whose type changed under the session ------------ *)
+Definition ex_flow2_no_router : flow :=
+  {| f_id := 2; f_type := 0;
+     f_nodes := [ {| n_id := 201; n_actions := []; n_router := None; n_exits := [{| e_id := 2011; e_dest := None |}] |} ] |}.
+Definition ex_assets_no_router : assets := {| a_flows := [ex_flow1; ex_flow2_no_router]; a_opts := ex_opts |}.
+
+Example ex_site_no_wait : resume_site ex_assets_no_router ex_waiting 1 None /\
+  exists x', resume_session ex_assets_no_router ex_waiting (RMsg [97]) [] = Resumed (ROk x') /\
+             s_status (session_ x') = SFailed /\ map r_status (s_runs (session_ x')) = [RFailed; RFailed] /\
+             map (fun oe => ev_kind (snd oe)) (sp_events (sprint_ x')) = [EFailure FNoWait].
+Proof.
+  split.
+  - eapply site_no_wait; reflexivity.
+  - vm_compute. eexists; repeat split.
+Qed.
+
+(* the wait on node 201 became a dial wait: a msg resume is rejected (103), a dial resume is accepted *)
+Definition ex_dial_router : router :=
+  {| rt_wait := Some {| w_type := WDial; w_timeout := None |}; rt_result := None;
+     rt_cats := [{| cat_name := [65]; cat_exit := 2011 |}]; rt_cases := []; rt_default := Some 0%nat |}.
+Definition ex_flow2_dial : flow :=
+  {| f_id := 2; f_type := 0;
+     f_nodes := [ {| n_id := 201; n_actions := []; n_router := Some ex_dial_router; n_exits := [{| e_id := 2011; e_dest := None |}] |} ] |}.
+Definition ex_assets_dial : assets := {| a_flows := [ex_flow1; ex_flow2_dial]; a_opts := ex_opts |}.
+
+Example ex_dial_row :
+  resume_session ex_assets_dial ex_waiting (RMsg [97]) [] = Rejected 103 /\
+  resume_session ex_assets_dial ex_waiting RTimeout [] = Rejected 103 /\
+  exists x', resume_session ex_assets_dial ex_waiting RDial [] = Resumed (ROk x') /\ s_status (session_ x') = SCompleted.
+Proof. vm_compute. repeat split. eexists; split; reflexivity. Qed.
+
+(* the premises of c10_route_error_unreachable are inhabited *)
+Example ex_route_error_premises :
+  exists n rt w, path_location ex_assets ex_waiting 1 = Some (0%nat, n) /\ n_router n = Some rt /\ rt_wait rt = Some w /\ accepts w RTimeout = true.
+Proof. vm_compute. do 3 eexists. repeat split. Qed.
